@@ -193,6 +193,7 @@ err_info(struct sbuf *o, const struct ly_ctx *ctx, LY_ERR rc)
 #define DUMP_NEWFLAG 0x1
 #define DUMP_NOFLAGS 0x2
 #define DUMP_NOMETA 0x4
+#define DUMP_ISDFLT 0x8
 
 static void
 dump_node(struct sbuf *o, const struct lyd_node *n, int depth, int opts)
@@ -229,6 +230,9 @@ dump_node(struct sbuf *o, const struct lyd_node *n, int depth, int opts)
                 }
                 if (n->schema->flags & LYS_CONFIG_R) {
                     sb_str(o, "s");
+                }
+                if ((opts & DUMP_ISDFLT) && (n->schema->nodetype & LYD_NODE_TERM) && lyd_is_default(n)) {
+                    sb_str(o, "D");
                 }
             }
             if (!(opts & DUMP_NOMETA)) {
